@@ -44,8 +44,20 @@ def seek_reuse(sc, tr):
     """A seekable request body delivered empty (to the server, or refused by the transport) on a later attempt."""
     if sc["bodyKind"] not in ("seeker", "reader"):
         return False
-    return any((x["ev"] == "Req" and not x["bodyComplete"] and x["bodyLen"] == 0 and x["n"] > 1) or
-               (x["ev"] == "Final" and "with Body length 0" in x.get("err", "")) for x in tr)
+    if any((x["ev"] == "Req" and not x["bodyComplete"] and x["n"] > 1) or
+           (x["ev"] == "Final" and "with Body length" in x.get("err", "")) for x in tr):
+        return True
+    # ... or a later attempt that the transport refused before it reached the server: fewer arrivals than the script demands
+    def retryable(r):
+        return r["err"] == "conn" or r["status"] == 429 or (r["status"] >= 500 and r["status"] != 501)
+    want = 1
+    for r in sc["script"]:
+        if retryable(r) and want <= sc["maxRetries"] and want < len(sc["script"]):
+            want += 1
+        else:
+            break
+    got = sum(1 for x in tr if x["ev"] == "Req")
+    return "retry" in sc["policies"] and 1 < got < want
 
 
 def run_http(ctx, only_leaks=False):
